@@ -69,3 +69,4 @@ revert bd477b6 C05
 revert 44f4b4d C08
 revert 57b16f7 C08
 revert f23e696 C06
+revert b8305ae C02
